@@ -276,7 +276,7 @@ def run(ctx):
                 "(a random node replaced by null / scalar / list / map of the wrong type / deep nesting, deleted, unknown or mis-cased key added), serialised "
                 "as YAML / JSON / TOML, some truncated, with stray or invalid UTF-8 bytes or a duplicated line; YAML anchors, merge keys, aliases, "
                 "multi-documents, complex keys; 13 env-file shapes; dangling symbolic links (in an imported directory, as import, as env_file); each loaded by list / show / graph / validate and, "
-                "for YAML, through default-configuration resolution (10 s limit).  Plus one empty body at "
+                "for YAML, through default-configuration resolution (10 s limit); eight commands with no configuration file anywhere.  Plus one empty body at "
                 "every position of a fixed configuration, compared with the model.  distinct = distinct document text; non-trivial = mutated or special.")
     cases = ctx.replay_cases if ctx.replay_cases else gen_cases(ctx)
     cases = [c for c in cases if "text_b64" in c]
@@ -321,6 +321,45 @@ def run(ctx):
                 "list (default configuration file)" if j["argv"] == ["list"] else j["argv"][-2] if j["argv"][-2] in ("show", "graph") else j["argv"][-1] if j["argv"][0] == "-c" else "validate",
                 "did not end in 10 s" if k == 3 else "crashed", c["fmt"], where[-60:]), "case": c,
                 "observed": {"argv": j["argv"], "rc": r["rc"], "tail": txt[-1500:]}})
+    # ---- NO configuration file anywhere (no -c, nothing found by default resolution): the front end tolerates the missing default
+    #      and every command must still end with a result or an error message ----
+    if not ctx.replay_cases or any(c.get("kind") == "noconfig" for c in ctx.replay_cases):
+        import os, tempfile, shutil
+        def clean_base(d):
+            d = os.path.abspath(d)
+            while True:
+                if any(os.path.exists(os.path.join(d, n)) for n in ("tasks.yaml", "taskctl.yaml")):
+                    return False
+                if d == os.path.dirname(d):
+                    return True
+                d = os.path.dirname(d)
+        base, made = None, None
+        for cand in (ctx.workdir, "/var/tmp", "/dev/shm"):
+            if os.path.isdir(cand) or cand == ctx.workdir:
+                os.makedirs(cand, exist_ok=True)
+                if os.access(cand, os.W_OK) and clean_base(cand):
+                    base = cand if cand == ctx.workdir else tempfile.mkdtemp(prefix="verif_c15_", dir=cand)
+                    made = None if cand == ctx.workdir else base
+                    break
+        if base is None:
+            res.count("noconfig-skipped")
+        else:
+            other = "tasks:\n  hello:\n    command:\n      - echo hello\npipelines:\n  p1:\n    - task: hello\n"
+            argvs = [["list"], ["validate", "other.yaml"], ["show", "hello"], ["graph", "p1"], ["run", "hello"], ["list", "tasks"], ["validate", "missing.yaml"], ["-d", "list"]]
+            qjobs = [{"id": k, "files": {"other.yaml": other}, "argv": a, "timeout": 10} for k, a in enumerate(argvs)]
+            qout = clilib.run_cli(os.path.join(base, "noconfig"), qjobs, timeout=10)
+            for j in qjobs:
+                r = qout[j["id"]]
+                res.evaluations += 1
+                res.count("noconfig")
+                res.nontrivial_keys.add("noconfig " + " ".join(j["argv"]))
+                k = classify(r)
+                if k >= 2:
+                    res.violations.append({"class": None, "what": "`taskctl %s` with no configuration file anywhere (no -c, none found by default resolution) %s" % (
+                        " ".join(j["argv"]), "did not end in 10 s" if k == 3 else "crashed"), "case": {"kind": "noconfig", "argv": j["argv"]},
+                        "observed": {"rc": r["rc"], "tail": ((r.get("err") or "") + (r.get("out") or ""))[-1200:]}})
+            if made:
+                shutil.rmtree(made, ignore_errors=True)
     # ---- structured empty-body / env-file cases against the model ----
     if not ctx.replay_cases or any("nil" in c for c in ctx.replay_cases):
         ncs = [c for c in ctx.replay_cases if "nil" in c] if ctx.replay_cases else nil_cases(ctx)
